@@ -12,7 +12,7 @@ POk(k) ==
        /\ k.port >= 1 /\ k.port <= 65535
        /\ a.cls = "valid" => k.port = a.v                              \* the decimal port written in the URI
        /\ (a.cls = "none" /\ DefaultPort(a.scheme) # 0) => k.port = DefaultPort(a.scheme)
-       /\ k.ok2 /\ k.scheme2 = k.scheme /\ k.host2 = k.host /\ k.port2 = k.port /\ k.path2 = k.path
+       /\ k.ok2 /\ k.scheme2 = k.scheme /\ k.host2 = k.host /\ k.port2 = k.port /\ SamePath(k.path2, k.path)
 IOk(k) ==
   IF k.m = "CONNECT" THEN TRUE ELSE
   LET m == ISimple(k.u, k.chk) IN
